@@ -164,6 +164,26 @@ def _run(res, nlines, mode):
                     states_panics.append(o)
             return [Outcome(s, ret=UNIT) for s in states] + []
 
+        def s_split_into_iter(ex, st, callee, args, argv, f):
+            it = argv[0]
+            if not (isinstance(it, Opaque) and it.tag == "split"):
+                raise Unsupported("into_iter on %r" % (it,))
+            return ok1(st, Opaque("split-iter", 0))
+
+        def s_split_next(ex, st, callee, args, argv, f):
+            # iterator plumbing (trusted): Split yields Some(Ok(line)) per line in input order, then None
+            r = argv[0]
+            it = ex.deref_val(st, r)
+            if not (isinstance(it, Opaque) and it.tag in ("split-iter", "split")):
+                raise Unsupported("Iterator::next on %r" % (it,))
+            i = it.e if it.tag == "split-iter" else 0
+            if i >= nlines:
+                return ok1(st, EnumV("Option", 0, {}))
+            ex.write_ref(st, r, [], Opaque("split-iter", i + 1))
+            st.ghost = dict(st.ghost)
+            st.ghost["line"] = i
+            return ok1(st, EnumV("Option", 1, {1: [EnumV("Result", 0, {0: [lines[i]]})]}))
+
         states_panics = []
         opaque = lambda tag: (lambda ex, st, c, a, v, f: ok1(st, Opaque(tag)))
         table = compile_table([
@@ -182,11 +202,13 @@ def _run(res, nlines, mode):
             (r"as BufRead>::split$", opaque("split")),
             (r"as Iterator>::map::<", lambda ex, st, c, a, v, f: ok1(st, Opaque("map", v[1]))),
             (r"as Iterator>::for_each::<", s_for_each),
+            (r"^<(?:std::io::)?Split<.*> as IntoIterator>::into_iter$", s_split_into_iter),
+            (r"^<(?:std::io::)?Split<.*> as Iterator>::next$", s_split_next),
             (r"^<Vec<u8> as Deref>::deref$", lambda ex, st, c, a, v, f: ok1(st, ex.deref_val(st, v[0]))),
             (r"^<(?:std::borrow::)?Cow<'_, str> as Deref>::deref$", lambda ex, st, c, a, v, f: ok1(st, Opaque("str"))),
         ] + T.SLICE_OPS + COMMON)
         ex = Executor(funcs, enums, structs, table)
-        ex.unroll = LINE_N + 3
+        ex.unroll = max(LINE_N + 3, nlines + 2)
         fmain = funcs.get("main")
         if fmain is None:
             raise Unsupported("main not found in the binary's MIR")
